@@ -113,7 +113,7 @@ func (c *Ctx) lexResetJobs() []Job {
 	var jobs []Job
 	maxN := 3
 	if !c.Quick() {
-		maxN = 5
+		maxN = 4 // N=5: the history job (4 Scan calls on 5 symbolic bytes) does not finish in 300 s
 	}
 	if t := c.atLexTarget(); t != nil {
 		for n := 1; n <= maxN; n++ {
